@@ -19,15 +19,7 @@ Proof.
   intros Hb L1 D. unfold triplet_inert in Hb. rewrite L1, D in Hb. cbn [orb] in Hb. unfold parse_2829.
   destruct (negb (dc =? 0) && negb (dc =? 4)); [reflexivity|]. cbn [orb] in Hb.
   destruct (Nat.ltb (length (tl p)) 3); [reflexivity|]. cbn [orb] in Hb.
-  rewrite !nth_byte_at.
-  assert (Hlow : N.land (N.lor (N.lor (N.shiftl (nth 2 (tl p) 0) 16) (N.shiftl (nth 1 (tl p) 0) 8)) (nth 0 (tl p) 0)) 15
-                 = N.land (nth 0 (tl p) 0) 15).
-  { apply N.bits_inj. intros k. rewrite !N.land_spec, !N.lor_spec.
-    destruct (N.ltb_spec k 4) as [Hk4|Hk4].
-    - rewrite (N.shiftl_spec_low _ 16 k) by lia. rewrite (N.shiftl_spec_low _ 8 k) by lia. reflexivity.
-    - replace (N.testbit 15 k) with false; [rewrite !andb_false_r; reflexivity|].
-      symmetry. change 15 with (N.ones 4). apply N.ones_spec_high. lia. }
-  rewrite Hlow. rewrite Hb. reflexivity.
+  rewrite triplet_dec_spec. destruct (triplet_of (tl p)) as [tr|]; [|reflexivity]. rewrite Hb. reflexivity.
 Qed.
 
 (* while our page is not being received *)
@@ -160,17 +152,17 @@ Proof.
   destruct (ham84_dec (nth 0 p 0)) as [dc|] eqn:D; [|discriminate].
   repeat (apply andb_true_iff in Hd; destruct Hd as [Hd ?]).
   match goal with H : negb (Nat.ltb (length (tl p)) 3) = true |- _ => apply negb_true_iff in H; rename H into L3 end.
-  match goal with H : negb ((pkt =? 28) && _) = true |- _ => apply negb_true_iff in H; rename H into Hfmt end.
+  match goal with H : match triplet_of (tl p) with _ => _ end = true |- _ => rename H into Hfmt end.
+  destruct (triplet_of (tl p)) as [tr|] eqn:T; [|discriminate]. apply negb_true_iff in Hfmt.
   assert (Hdc : negb (dc =? 0) && negb (dc =? 4) = false) by (destruct (dc =? 0), (dc =? 4); cbn in Hd |- *; congruence).
   assert (P : forall b, parse_2829 (tl p) pkt dc b =
-              (do d <- (if pkt =? 28 then set_x28 (pb_cd b) (triplet_of (tl p)) else set_m29 (pb_cd b) (triplet_of (tl p))); Ok (with_cd b d))).
-  { intros b. unfold parse_2829. rewrite Hdc, L3. unfold triplet_of in *. rewrite !nth_byte_at. rewrite Hfmt. reflexivity. }
+              (do d <- (if pkt =? 28 then set_x28 (pb_cd b) tr else set_m29 (pb_cd b) tr); Ok (with_cd b d))).
+  { intros b. unfold parse_2829. rewrite Hdc, L3, triplet_dec_spec, T, Hfmt. reflexivity. }
   unfold parse_packet. cbn [pb_recv pb_mag].
   assert (Hp0 : (pkt =? 0) = false) by (apply orb_true_iff in Hk; destruct Hk as [E|E]; apply N.eqb_eq in E; subst; reflexivity).
   assert (Hp25 : (pkt <=? 25) = false) by (apply orb_true_iff in Hk; destruct Hk as [E|E]; apply N.eqb_eq in E; subst; reflexivity).
   assert (Hp26 : (pkt =? 26) = false) by (apply orb_true_iff in Hk; destruct Hk as [E|E]; apply N.eqb_eq in E; subst; reflexivity).
   rewrite Hp0, Hp25, Hp26, N.eqb_refl, !andb_false_r, L1. rewrite nth_byte_at, ham84_is_spec, D. cbn [andb].
-  set (tr := triplet_of (tl p)) in *.
   (* the two setters, with no page parsed yet *)
   assert (SX : exists cd', cdst cd' (Some tr, snd st) /\ set_x28 cd tr = Ok cd').
   { unfold set_x28. destruct (cd_x28 cd) as [t0|] eqn:X.
@@ -193,29 +185,28 @@ Proof.
 Qed.
 
 (* units of the other classes are no designation packets *)
+Lemma inert_no_desig pkt p : triplet_inert pkt p = true ->
+  negb (Nat.ltb (length p) 1)
+  && match ham84_dec (nth 0 p 0) with
+     | Some dc => ((dc =? 0) || (dc =? 4)) && negb (Nat.ltb (length (tl p)) 3)
+                  && match triplet_of (tl p) with Some t => negb ((pkt =? 28) && (0 <? N.land t 15)) | None => false end
+     | None => false
+     end = false.
+Proof.
+  unfold triplet_inert. intros H. destruct (Nat.ltb (length p) 1); [reflexivity|]. cbn [orb negb andb] in H |- *.
+  destruct (ham84_dec (nth 0 p 0)) as [dc|]; [|reflexivity].
+  destruct (negb (dc =? 0) && negb (dc =? 4)) eqn:Edc.
+  - destruct (dc =? 0), (dc =? 4); cbn in Edc |- *; try discriminate; reflexivity.
+  - cbn [orb] in H. destruct (Nat.ltb (length (tl p)) 3); [rewrite andb_false_r; reflexivity|]. cbn [orb negb] in H.
+    destruct (triplet_of (tl p)) as [t|]; [rewrite H; rewrite andb_false_r; reflexivity | rewrite andb_false_r; reflexivity].
+Qed.
 Lemma benign_no_desig mag0 pn0 u : benign mag0 pn0 u = true -> desig_ok mag0 u = false.
 Proof.
   unfold benign, desig_ok. destruct (unit_addr u) as [[[mag pkt] p]|]; [|reflexivity]. intros H.
   destruct (mag =? mag0) eqn:Em; [|reflexivity]. cbn [andb].
   destruct (N.eqb_spec pkt 28) as [->|N28]; [|destruct (N.eqb_spec pkt 29) as [->|N29]; [|reflexivity]].
-  - cbn [N.eqb Pos.eqb N.leb N.compare Pos.compare Pos.compare_cont orb negb] in H |- *. unfold triplet_inert in H. cbn [orb andb].
-    destruct (Nat.ltb (length p) 1); [reflexivity|]. cbn [orb negb andb] in H |- *.
-    destruct (ham84_dec (nth 0 p 0)) as [dc|]; [|reflexivity]. unfold triplet_of.
-    destruct (negb (dc =? 0) && negb (dc =? 4)) eqn:Edc.
-    + destruct (dc =? 0), (dc =? 4); cbn in Edc |- *; try discriminate; reflexivity.
-    + cbn [orb] in H. destruct (Nat.ltb (length (tl p)) 3); [rewrite andb_false_r; reflexivity|]. cbn [orb negb] in H.
-      cbn [N.eqb Pos.eqb andb] in H. 
-      assert (Hlow : N.land (N.lor (N.lor (N.shiftl (nth 2 (tl p) 0) 16) (N.shiftl (nth 1 (tl p) 0) 8)) (nth 0 (tl p) 0)) 15 = N.land (nth 0 (tl p) 0) 15).
-      { apply N.bits_inj. intros k. rewrite !N.land_spec, !N.lor_spec. destruct (N.ltb_spec k 4) as [Hk4|Hk4].
-        - rewrite (N.shiftl_spec_low _ 16 k) by lia. rewrite (N.shiftl_spec_low _ 8 k) by lia. reflexivity.
-        - replace (N.testbit 15 k) with false; [rewrite !andb_false_r; reflexivity|]. symmetry. change 15 with (N.ones 4). apply N.ones_spec_high. lia. }
-      rewrite Hlow, H. cbn [N.eqb Pos.eqb andb negb]. rewrite !andb_false_r. reflexivity.
-  - cbn [N.eqb Pos.eqb N.leb N.compare Pos.compare Pos.compare_cont orb negb] in H |- *. unfold triplet_inert in H. cbn [orb andb].
-    destruct (Nat.ltb (length p) 1); [reflexivity|]. cbn [orb negb andb] in H |- *.
-    destruct (ham84_dec (nth 0 p 0)) as [dc|]; [|reflexivity].
-    destruct (negb (dc =? 0) && negb (dc =? 4)) eqn:Edc.
-    + destruct (dc =? 0), (dc =? 4); cbn in Edc |- *; try discriminate; reflexivity.
-    + cbn [orb] in H. destruct (Nat.ltb (length (tl p)) 3); [rewrite andb_false_r; reflexivity|]. cbn [orb negb] in H. cbn [N.eqb Pos.eqb andb] in H. discriminate.
+  - cbn [N.eqb Pos.eqb N.leb N.compare Pos.compare Pos.compare_cont orb negb] in H. cbn [orb andb]. exact (inert_no_desig 28 p H).
+  - cbn [N.eqb Pos.eqb N.leb N.compare Pos.compare Pos.compare_cont orb negb] in H. cbn [orb andb]. exact (inert_no_desig 29 p H).
 Qed.
 Lemma row_no_desig mag0 row cells u : is_our_row mag0 row cells u = true -> desig_ok mag0 u = false.
 Proof.
@@ -232,11 +223,7 @@ Proof.
   - match goal with |- (if ?c then _ else _) = _ => destruct c; reflexivity end.
   - destruct (N.eqb_spec pkt 29) as [->|N29].
     + cbn [N.eqb Pos.eqb] in H. destruct (mag =? mag0) eqn:Em; [|reflexivity]. cbn [negb orb andb] in H |- *.
-      unfold triplet_inert in H. destruct (Nat.ltb (length p) 1); [reflexivity|]. cbn [orb negb andb] in H |- *.
-      destruct (ham84_dec (nth 0 p 0)) as [dc|]; [|reflexivity].
-      destruct (negb (dc =? 0) && negb (dc =? 4)) eqn:Edc.
-      * destruct (dc =? 0), (dc =? 4); cbn in Edc |- *; try discriminate; reflexivity.
-      * cbn [orb] in H. destruct (Nat.ltb (length (tl p)) 3); [rewrite andb_false_r; reflexivity|]. cbn [orb negb N.eqb Pos.eqb andb] in H. discriminate.
+      match goal with |- (if ?c then _ else _) = _ => assert (E : c = false) by exact (inert_no_desig 29 p H); rewrite E; reflexivity end.
     + destruct (mag =? mag0); cbn [orb andb]; reflexivity.
 Qed.
 
@@ -271,7 +258,7 @@ Qed.
 Lemma parse_2829_add d i pkt dc b : parse_2829 i pkt dc (add_done d b) = res_map (add_done d) (parse_2829 i pkt dc b).
 Proof.
   unfold parse_2829. destruct (negb (dc =? 0) && negb (dc =? 4)); [reflexivity|].
-  destruct (Nat.ltb (length i) 3); [reflexivity|].
+  destruct (Nat.ltb (length i) 3); [reflexivity|]. destruct (triplet_dec i) as [tr|]; [|reflexivity].
   match goal with |- context [(pkt =? 28) && ?c] => destruct ((pkt =? 28) && c) end; [reflexivity|].
   change (pb_cd (add_done d b)) with (pb_cd b).
   destruct (pkt =? 28).
